@@ -94,6 +94,7 @@ type Drv struct {
 	fired           []firedRec
 	touched         map[int]bool // observer slots (un)registered during the current op
 	unregDuring     []int
+	regDuring       []RegRec
 	cbSeen          map[EID]int
 	inBatchCb       bool
 	Viol            []Violation
@@ -120,6 +121,7 @@ type Stats struct {
 	Panics           int64
 	BystanderOps     int64
 	ObserverReuse    int64
+	RegInCallback    int64 // observers registered from inside observer callbacks
 	RejectedStatsCmp int64 // per-archetype Stats() comparisons around calls rejected for their arguments
 	FilterSpareBatch int64 // standing filters that served a Batch(rel) call before their first query
 	RelListsShared   int64 // relation argument lists (built with Rel/RelIdx) handed to a world after another world had used them
